@@ -5,8 +5,10 @@ Kernel-certified on a sample of the run's cases (definitions: coq/RealSpec/Norma
   * NormalDist.CDF(x)        Rabs (Phi mu sigma x - obs) <= 1e-9                       [integral]
   * NormalDist.PDF(x)        Rabs (phi mu sigma x - obs) <= 1e-9 * peak density        [interval]
   * NormalDist.InvCDF(p)     Rabs (Phi mu sigma InvCDF_go(p) - p) <= 1e-9 * p  (p >= 1e-12; well-conditioned mu/sigma)  [integral]
-  * TDist.CDF(x), PDF(x)     integer and half-integer V in [1, 200]: cos-power integrals [integral + interval]
-Everything else (V < 1, V > 200, non-half-integer V, p < 1e-12, ...) is compared with the
+  * TDist.CDF(x), PDF(x)     integer and half-integer V in [1, 200] (RealSpec/TDist.v) and V = 1/2
+                             (RealSpec/TDistGen.v): cos-power integrals [integral + interval]; the goals are
+                             stratified over V: every run certifies the CDF at V = 1/2, 1, 3/2, 2, 5/2, 3, 4, 5
+Everything else (other V < 1, V > 200, non-half-integer V, p < 1e-12, ...) is compared with the
 UNCERTIFIED mpmath reference on a sample and reported separately.
 """
 import os, sys, json, random
@@ -336,7 +338,7 @@ def extra(ctx):
                 bad_ref.append((it, v, tol))
     # ---- certificate goals
     certset = {id(it) for it in cert}
-    chosen = [it for it, _, _ in bad_ref if id(it) in certset][:30]
+    chosen = [it for it, _, _ in bad_ref if id(it) in certset][:6 if tier == "quick" else 30]
     by_kind = {}
     for it in cert:
         by_kind.setdefault(it[0], []).append(it)
